@@ -294,3 +294,29 @@ func init() {
 		return arr
 	}
 }
+
+func init() {
+	// (*json.Encoder).Encode: the model's rendering plus a newline, written through the real
+	// io.Writer the encoder was created with (SetEscapeHTML/SetIndent are not modelled)
+	externals["(*encoding/json.Encoder).Encode"] = func(e *Exec, fr *frame, pos token.Pos, fn *ssa.Function, a []Value) Value {
+		p, ok := a[0].(PtrV).single()
+		if !ok {
+			panic(unsupported("json.Encoder through nil/multi pointer"))
+		}
+		st := fn.Signature.Recv().Type().(*types.Pointer).Elem().Underlying().(*types.Struct)
+		w := (*p).(StructV)[structFieldIndex(fn.Signature.Recv().Type().(*types.Pointer).Elem(), "w")].(IfaceV)
+		_ = st
+		j := &jsonEnc{e: e, fr: fr, pos: pos}
+		j.render(a[1], fn.Signature.Params().At(0).Type())
+		if j.fail != "" {
+			return e.mkError(j.fail)
+		}
+		j.lit("\n")
+		wf := e.ifaceMethod(w, "Write")
+		if wf == nil {
+			panic(unsupported("json.Encoder: writer without Write"))
+		}
+		r := e.call(fr, pos, wf, []Value{w.v, termsToSlice(j.out)}).(TupleV)
+		return r[1]
+	}
+}
